@@ -695,7 +695,7 @@ fn build(r: R, sa: u8, sb: u8, sq: u8, int_ty: bool, layout_kind: u8, seed0: u64
 
 pub fn run_c17(ctx: &Ctx) {
     let t = ctx.tier();
-    let instances = t.pick(24u64, 1200u64);
+    let instances = t.pick(100u64, 2000u64);
     let mut cell = 0u64;
     let mut cells_used = 0u64;
     for &r in ROUTINES.iter() {
